@@ -125,6 +125,23 @@ func main() {
 		m := binary.BigEndian.Uint32(da[:])
 		prefixCase(s, v, m)
 		prefixCase(s, v, m^(1<<uint(r.Intn(32))))
+		// neighbours: the NetID with one bit changed, right after, on the same address, and the first one
+		// again (a result must depend on the arguments of this call only); bit i%24 so that every bit is
+		// covered for every type in a few hundred iterations
+		w := v ^ 1<<uint(i%24)
+		prefixCase(s, w, a)
+		prefixCase(s, w, m)
+		prefixCase(s, v, a)
+	}
+	// every type x every single-bit neighbour pair of the all-ones-but-one and random IDs, back to back
+	for t := uint32(0); t < 8; t++ {
+		for bit := uint(0); bit < 21; bit++ {
+			id := r.U32() & 0x1fffff
+			a := r.U32()
+			prefixCase(s, t<<21|id, a)
+			prefixCase(s, t<<21|(id^1<<bit), a)
+			prefixCase(s, t<<21|id, a)
+		}
 	}
 	// representations
 	hexd := []byte("0123456789abcdefABCDEF")
